@@ -10,7 +10,7 @@ use crate::fml::TopLevelParser;
 use crate::bytecode::program::Program;
 use crate::bytecode::serializable::Serializable;
 use crate::bytecode::state::State;
-use crate::bytecode::interpreter::evaluate_with;
+use crate::bytecode::interpreter::{evaluate_with, step_with};
 
 use super::syntax::{E, Member};
 
@@ -72,6 +72,39 @@ pub fn load(bytes: &[u8]) -> Result<Program, String> {
     }
 }
 
+/// a reader that hands out at most `k` bytes per `read` call (a legitimate `Read` implementation)
+pub struct Chunked<'a> { pub data: &'a [u8], pub pos: usize, pub k: usize }
+impl<'a> std::io::Read for Chunked<'a> {
+    fn read(&mut self, buf: &mut [u8]) -> std::io::Result<usize> {
+        let n = buf.len().min(self.k).min(self.data.len() - self.pos);
+        buf[..n].copy_from_slice(&self.data[self.pos..self.pos + n]);
+        self.pos += n;
+        Ok(n)
+    }
+}
+
+pub fn load_chunked(bytes: &[u8], k: usize) -> Result<Program, String> {
+    match catch_unwind(AssertUnwindSafe(|| {
+        let mut r = Chunked { data: bytes, pos: 0, k };
+        let p = Program::from_bytes(&mut r);
+        (p, r.pos)
+    })) {
+        Ok((p, used)) => if used == bytes.len() { Ok(p) } else { Err(format!("loader consumed {} of {} bytes", used, bytes.len())) },
+        Err(p) => Err(panic_text(p)),
+    }
+}
+
+/// through a BufReader with a small buffer, as `fml execute <file>` reads (short reads at refill boundaries)
+pub fn load_buffered(bytes: &[u8], capacity: usize) -> Result<Program, String> {
+    match catch_unwind(AssertUnwindSafe(|| {
+        let mut r = std::io::BufReader::with_capacity(capacity, std::io::Cursor::new(bytes));
+        Program::from_bytes(&mut r)
+    })) {
+        Ok(p) => Ok(p),
+        Err(p) => Err(panic_text(p)),
+    }
+}
+
 /// how many bytes the loader consumes (for the "no trailing bytes" direction of C04)
 pub fn load_consumed(bytes: &[u8]) -> Result<usize, String> {
     match catch_unwind(AssertUnwindSafe(|| {
@@ -103,6 +136,31 @@ pub fn execute_cfg(p: &Program, heap_size: Option<usize>, heap_log: Option<PathB
         Ok(Err(e)) => RunResult { ok: false, out, err: e },
         Err(p) => RunResult { ok: false, out, err: panic_text(p) },
     }
+}
+
+/// Fuel-bounded execution for relational checks on programs without a reference run: the
+/// repository's own single-step function in the loop `evaluate_with` consists of.
+/// Returns (result, steps, finished).
+pub fn execute_bounded(p: &Program, max_steps: u64) -> (RunResult, u64, bool) {
+    let mut out = String::new();
+    let mut steps = 0u64;
+    let mut finished = false;
+    let r = catch_unwind(AssertUnwindSafe(|| -> Result<(), String> {
+        let mut state = State::from(p).map_err(|e| format!("{:#}", e))?;
+        while state.instruction_pointer.get().is_some() {
+            if steps >= max_steps || out.len() > 200_000 { return Ok(()) }
+            steps += 1;
+            step_with(p, &mut state, &mut out).map_err(|e| format!("{:#}", e))?;
+        }
+        finished = true;
+        Ok(())
+    }));
+    let res = match r {
+        Ok(Ok(())) => RunResult { ok: true, out, err: String::new() },
+        Ok(Err(e)) => RunResult { ok: false, out, err: e },
+        Err(p) => RunResult { ok: false, out, err: panic_text(p) },
+    };
+    (res, steps, finished)
 }
 
 pub fn listing(p: &Program) -> Result<String, String> {
